@@ -27,7 +27,11 @@ it back with uniform types:
                  "suite": [str], "env": [[k, v]], "sp": "", "script": ""} ],   # script != "": test runs <script> (sh) instead of exe
      "conf": [ {"subdir": "", "out": "conf.h", "sp": ""} ],                     # configure_file(copy-like)
      "installs": [ {"kind": "data"|"headers"|"man"|"subdir"|"emptydir"|"symlink", "subdir": "", "sp": "",
-                    "files": [str], "install_dir": "", "tag": "", "rename": [str], "extra": {}} ],
+                    "files": [str], "install_dir": "", "tag": "", "rename": [str], "extra": {},
+                    "dir_expr": "",      # raw meson expression used for install_dir: instead of the string (e.g.
+                                         # "get_option('datadir') / 'x'"; then install_dir holds the expected
+                                         # placeholder form "{datadir}/x")
+                    "strip": false} ],   # install_subdir(strip_directory:)
      "options": [ {"name": str, "type": "string"|"boolean"|"integer"|"combo"|"array"|"feature", "value": <text>,
                    "choices": [str], "sp": ""} ],   # meson.options + a message() line per option (C15)
      "show_builtins": [name...]                     # builtin options echoed with message() as well
@@ -82,7 +86,7 @@ TEST_DEFAULTS: T.Dict[str, T.Any] = {
 }
 CONF_DEFAULTS: T.Dict[str, T.Any] = {'subdir': '', 'out': 'conf.h', 'sp': ''}
 INSTALL_DEFAULTS: T.Dict[str, T.Any] = {'kind': 'data', 'subdir': '', 'sp': '', 'files': [], 'install_dir': '', 'tag': '',
-                                        'rename': [], 'extra': {}}
+                                        'rename': [], 'extra': {}, 'dir_expr': '', 'strip': False}
 OPTION_DEFAULTS: T.Dict[str, T.Any] = {'name': 'o', 'type': 'string', 'value': '', 'choices': [], 'sp': ''}
 PROJECT_DEFAULTS: T.Dict[str, T.Any] = {
     'name': 'proj', 'lang': 'c', 'layout': 'mirror', 'deflib': 'shared', 'unity': 'off', 'targets': [], 'tests': [],
@@ -487,8 +491,12 @@ def _emit_install(fs: _Files, k: int, it: T.Dict[str, T.Any], d: str) -> None:
         fs.file(f'{d}/{path}' if d else path, text)
 
     kws: T.List[T.Tuple[str, str]] = []
-    if it['install_dir']:
+    if it.get('dir_expr'):
+        kws.append(('install_dir', it['dir_expr']))
+    elif it['install_dir']:
         kws.append(('install_dir', mstr(it['install_dir'])))
+    if kind == 'subdir' and it.get('strip'):
+        kws.append(('strip_directory', 'true'))
     if it['tag']:
         kws.append(('install_tag', mstr(it['tag'])))
     if it['rename']:
@@ -811,6 +819,18 @@ def random_data_project(rnd: random.Random, subprojects: bool = True) -> T.Dict[
                                       'tag': rnd.choice(['', '', 'custom-tag', 'devel', 'runtime'])}
             if kind in ('data', 'headers') and rnd.random() < 0.4:
                 it['install_dir'] = rnd.choice(['share/custom', 'opt/x y', '/abs/dir'])
+            if kind == 'subdir':
+                # install_dir: default of projgen (share/sd), plain string, absolute, or derived from an option value
+                how = rnd.choice(['default', 'plain', 'abs', 'option', 'option'])
+                if how == 'plain':
+                    it['install_dir'] = f'share/plain{k}'
+                elif how == 'abs':
+                    it['install_dir'] = f'/abs/sd{k}'
+                elif how == 'option':
+                    opt = rnd.choice(['datadir', 'libdir', 'includedir'])
+                    it['install_dir'] = '{%s}/x%d' % (opt, k)
+                    it['dir_expr'] = f"get_option('{opt}') / 'x{k}'"
+                it['strip'] = rnd.random() < 0.4
             p['installs'].append(it)
     for j in range(rnd.randint(1, 4)):
         sp = rnd.choice(sps)
